@@ -37,6 +37,7 @@ struct Spec {
   // gen: receives the registered names with their defaults, returns the generated assignment (as long double, unrounded)
   std::function<void(Draw &, std::map<std::string, long double> &, bool sweep)> gen;
   std::function<void(Draw &, long double *pt, const std::map<std::string, long double> &)> genpt;
+  std::function<void(Draw &, std::vector<long double> &)> genvec;   // data vector (cp_normal)
   std::vector<Ev> evals;
   // relations between library values (metamorphic / closure checks); appended to the outcomes
   std::function<void(const NumCase &, const PM &, std::vector<Outcome> &, double K)> relations;
@@ -60,6 +61,10 @@ std::string case_to_json(const NumCase &c, const std::vector<Outcome> *o = nullp
 NumCase make_case(const Spec &s, int prec, const std::vector<uint64_t> &entropy, bool sweep);
 bool nontrivial(const NumCase &c);
 uint64_t case_hash(const NumCase &c);
+
+// data vector of the case being evaluated (cp_normal), as held by the library
+const std::vector<Q> &current_vec();
+void set_current_vec(const std::vector<Q> &v);
 
 // callback family for euler_chem_1d
 void set_callback(int kind, const long double c[3]);
